@@ -55,8 +55,10 @@ def harnesses(tier, seed):
         for op in (1, 2, 3):
             hs.append(H(name=f"c18_{fam}_op{op}", module=mod, call=f"{fn}({op},0,0,0)", unwind=14, family=fam,
                         desc={"op": ["", "write", "flush", "shutdown"][op]}, funcs=FUNCS[fi:fi + 1], features="tls" if "braid" in fam else ""))
-    # the client/server Stream wrappers again with the `tls` feature on (their plain arm then goes through TlsBraid::NoTls)
-    for fam, mod, fn, fi in [("client_stream", "client_stream", "client_stream_op", 5), ("server_stream", "server_stream", "server_stream_op", 6)]:
+    # the client Stream wrapper again with the `tls` feature on (its plain arm then goes through TlsBraid::NoTls).  The same
+    # instances for the server wrapper make kani-compiler 0.68 panic (intrinsics.rs:243, reached through rustls' server side):
+    # not run; the server wrapper is covered with the feature off, and TlsBraid's arms by the braid_* harnesses
+    for fam, mod, fn, fi in [("client_stream", "client_stream", "client_stream_op", 5)]:
         for op, (c, pre, k) in [(0, (6, 2, 3)), (0, (6, 2, 8)), (1, (0, 0, 0)), (2, (0, 0, 0)), (3, (0, 0, 0))]:
             hs.append(H(name=f"c18_{fam}_tlsfeat_op{op}_c{c}_p{pre}_k{k}", module=mod, call=f"{fn}({op},{c},{pre},{k})", unwind=14, family=fam, tier="thorough",
                         desc={"op": ["read", "write", "flush", "shutdown"][op], "cargo_features": "tls"}, funcs=FUNCS[fi:fi + 1], features="tls"))
